@@ -104,9 +104,27 @@ func NumText(f float64) string { return strconv.FormatFloat(f, 'g', -1, 64) }
 // Canon renders a value structurally for comparison with the real interpreter.
 func Canon(v V) string {
 	var b strings.Builder
-	canon(&b, v, 0)
+	canonP(&b, v, 0, &valPath{})
 	return b.String()
 }
+
+// valPath: the containers being rendered right now.  A container met again on its own
+// path is written as <cycle> (an object may hold a list that holds the object); without
+// this a cyclic value with two references per level renders 2^depth nodes.
+type valPath []V
+
+func (vp *valPath) enter(b *strings.Builder, v V) bool {
+	for _, p := range *vp {
+		if p == v {
+			b.WriteString("<cycle>")
+			return false
+		}
+	}
+	*vp = append(*vp, v)
+	return true
+}
+
+func (vp *valPath) leave() { *vp = (*vp)[:len(*vp)-1] }
 
 func canonNum(f float64) string {
 	if math.IsNaN(f) {
@@ -115,7 +133,7 @@ func canonNum(f float64) string {
 	return fmt.Sprintf("n:%016x", math.Float64bits(f))
 }
 
-func canon(b *strings.Builder, v V, depth int) {
+func canonP(b *strings.Builder, v V, depth int, vp *valPath) {
 	if depth > 40 {
 		b.WriteString("<deep>")
 		return
@@ -136,15 +154,23 @@ func canon(b *strings.Builder, v V, depth int) {
 	case Null:
 		b.WriteString("空")
 	case *LV:
+		if !vp.enter(b, x) {
+			return
+		}
+		defer vp.leave()
 		b.WriteByte('[')
 		for i, it := range x.Items {
 			if i > 0 {
 				b.WriteByte(',')
 			}
-			canon(b, it, depth+1)
+			canonP(b, it, depth+1, vp)
 		}
 		b.WriteByte(']')
 	case *DV:
+		if !vp.enter(b, x) {
+			return
+		}
+		defer vp.leave()
 		b.WriteByte('{')
 		for i, k := range x.Keys {
 			if i > 0 {
@@ -152,10 +178,14 @@ func canon(b *strings.Builder, v V, depth int) {
 			}
 			b.WriteString(strconv.Quote(k))
 			b.WriteByte(':')
-			canon(b, x.M[k], depth+1)
+			canonP(b, x.M[k], depth+1, vp)
 		}
 		b.WriteByte('}')
 	case *OV:
+		if !vp.enter(b, x) {
+			return
+		}
+		defer vp.leave()
 		b.WriteString("obj:" + x.Class.Name + "{")
 		ks := make([]string, 0, len(x.Props))
 		for k := range x.Props {
@@ -167,7 +197,7 @@ func canon(b *strings.Builder, v V, depth int) {
 				b.WriteByte(',')
 			}
 			b.WriteString(k + ":")
-			canon(b, x.Props[k], depth+1)
+			canonP(b, x.Props[k], depth+1, vp)
 		}
 		b.WriteByte('}')
 	case *FV:
